@@ -19,7 +19,7 @@ DESIGN = {"C01": "4/C01", "C02": "4/C02", "C03": "4/C03", "C04": "4/C04", "C05":
 
 hooks = {
     "guard": "verif",
-    "enable": "go build -tags verif,faketime (CGO_ENABLED=0) for the virtual-time harness; go build -race -tags verif for the race harness; both through the harness module's replace github.com/atlassian/escalator => /repo",
+    "enable": "go build -tags verif,faketime (CGO_ENABLED=0) for the virtual-time harness; go build -race -tags verif for the race harness; both through the harness module's replace github.com/atlassian/escalator => /repo; go build -tags verif ./cmd (in /repo) for the provider-configuration dump used by C16",
     "baseline_off_cmd": "cd /repo && GOFLAGS=-mod=mod GOPROXY=off GOSUMDB=off go test -json -vet=off -count=1 -timeout 25m ./...",
     "source_commits": ["9a8964d", "0e07709", "60da094", "bf589f6"],
     "add_only": True,
